@@ -170,6 +170,20 @@ def run(case, ctx):
         return
     elif fam == "boundary":
         pred, refa = boundary_pair(ctx.seed, i)
+        if i % 3 == 2:
+            # the same maps as 2-D arrays (one segment per row) in Fortran order / as transposed or strided views:
+            # the widening branch together with a non-C layout
+            pred, refa = pred.reshape(-1, 3), refa.reshape(-1, 3)
+            lay = (i // 3) % 3
+            if lay == 0:
+                pred, refa = np.asfortranarray(pred), np.asfortranarray(refa)
+            elif lay == 1:
+                pred, refa = np.ascontiguousarray(pred.T).T, refa
+            else:
+                big = np.zeros((pred.shape[0], 6), dtype=pred.dtype)
+                big[:, ::2] = pred
+                pred, refa = big[:, ::2], np.asfortranarray(refa)
+            ctx.count("f:C04.widening_with_non_c_layout")
         ths = {"IOU": [0.5], "DSC": [0.5], "ASSD": [0.5]}
         run_pair(ctx, pred, refa, fam, thresholds=ths, metrics=("IOU", "ASSD") if i % 2 else ("DSC",))
         return
